@@ -23,7 +23,6 @@
 EXTENDS ConfigDist, ConfigDistUnionOps, Json, TLC
 
 Trace == ndJsonDeserialize("x02obs.ndjson")
-TraceOrder == <<"a", "b", "c", "d">>
 
 Universe(r) == {<<c, b>> : c \in 1..r.nchart, b \in 0..r.nbucket}
 Falses(c, p, k) == {<<x, p, k>> : x \in {y \in DOMAIN c : ~c[y]}}
@@ -94,11 +93,13 @@ Failed(r) == CASE r.kind = "flow" -> FlowFailed(r)
                [] r.kind = "union" -> UnionFailed(r)
                [] OTHER -> {<<"unknown-kind", 0, FALSE>>}
 
-VARIABLES l, bad
-Init == l = 1 /\ bad = <<>>
+(* every unexplained line is printed once as <<"X02BAD", line, failed clauses>>   *)
+(* (the driver reads these lines; a state variable collecting them would make   *)
+(* TLC print it in every state of a counter-example)                            *)
+VARIABLE l
+Init == l = 1
 Next == /\ l <= Len(Trace)
-        /\ LET f == Failed(Trace[l]) IN bad' = IF f = {} THEN bad ELSE Append(bad, <<l, f>>)
+        /\ LET f == Failed(Trace[l]) IN IF f = {} THEN TRUE ELSE PrintT(<<"X02BAD", l, f>>)
         /\ l' = l + 1
-AllExplained == (l = Len(Trace) + 1) => bad = <<>>
 Accepted == TLCGet("stats").diameter = Len(Trace) + 1
 =============================================================================
